@@ -476,3 +476,254 @@ Section Generic.
     split; [exact Hst|]. split; [exact Hxp|]. split; [exact Hstep|exact Hlt].
   Qed.
 End Generic.
+
+(* ======================= Part 2: the R instance ============================ *)
+Local Open Scope R_scope.
+
+(* sum_{k < n} f k *)
+Fixpoint rsum (n : nat) (f : nat -> R) : R :=
+  match n with O => 0 | S m => rsum m f + f m end.
+
+(* Rayleigh quotient v^T (A v) / v^T v of an n x 1 array *)
+Definition rayleigh (n : nat) (A v : arr R) : R :=
+  rsum n (fun k => aget v k 0 * rsum n (fun t => aget A k t * aget v t 0))
+  / rsum n (fun k => aget v k 0 * aget v k 0).
+
+Lemma sum_range_R n (f : nat -> R) : sum_range (@n0 R RNum) 0 n f = rsum n f.
+Proof.
+  unfold sum_range. induction n as [|n IH]; [reflexivity|].
+  rewrite for_range_S, IH. rewrite Nat.add_0_l. reflexivity.
+Qed.
+
+Lemma rsum_ext n f g : (forall k, (k < n)%nat -> f k = g k) -> rsum n f = rsum n g.
+Proof.
+  induction n as [|n IH]; intro H; [reflexivity|].
+  cbn [rsum]. rewrite IH, (H n) by (intros; try apply H; lia). reflexivity.
+Qed.
+
+Lemma mv_entry_R n (A x : arr R) i : (1 <= n)%nat -> (i < n)%nat ->
+  mv_entry n A x i = rsum n (fun t => aget A i t * aget x t 0).
+Proof.
+  intros Hn Hi. unfold mv_entry. destruct (n =? 1)%nat eqn:E.
+  - apply Nat.eqb_eq in E. subst n. assert (i = 0)%nat by lia. subst i.
+    cbn [rsum nmul RNum]. ring.
+  - apply sum_range_R.
+Qed.
+
+Lemma rc_entry_R n (a b : arr R) : (1 <= n)%nat ->
+  rc_entry n a b = rsum n (fun k => aget a 0 k * aget b k 0).
+Proof.
+  intros Hn. unfold rc_entry. destruct (n =? 1)%nat eqn:E.
+  - apply Nat.eqb_eq in E. subst n. cbn [rsum nmul RNum]. ring.
+  - apply sum_range_R.
+Qed.
+
+Lemma rayleigh_of_R n (A v : arr R) : (1 <= n)%nat -> ah A = n -> aw A = n -> shaped n 1 v ->
+  rayleigh_of n A v = rayleigh n A v.
+Proof.
+  intros Hn HA1 HA2 Hv. unfold rayleigh_of, rayleigh. cbn [ndiv RNum].
+  destruct (amul_mat_vec n A v Hn HA1 HA2 Hv) as [_ Hval].
+  destruct Hv as [Hv1 [Hv2 Hv3]].
+  rewrite !rc_entry_R by exact Hn. f_equal.
+  - apply rsum_ext. intros k Hk.
+    rewrite (aget_atranspose n 1%nat v 0 k Hv1 Hv2) by lia.
+    rewrite (Hval k Hk), mv_entry_R by assumption. reflexivity.
+  - apply rsum_ext. intros k Hk.
+    rewrite (aget_atranspose n 1%nat v 0 k Hv1 Hv2) by lia. reflexivity.
+Qed.
+
+(* ---- max / min over the reals -------------------------------------------- *)
+Lemma reduce_max_cons {T} {NT : Num T} (x a : T) l :
+  reduce_max x (a :: l) = reduce_max (if ngtb x a then x else a) l.
+Proof. reflexivity. Qed.
+Lemma reduce_min_cons {T} {NT : Num T} (x a : T) l :
+  reduce_min x (a :: l) = reduce_min (if nltb x a then x else a) l.
+Proof. reflexivity. Qed.
+
+Lemma reduce_max_R (l : list R) : forall x,
+  In (reduce_max x l) (x :: l) /\ forall y, In y (x :: l) -> y <= reduce_max x l.
+Proof.
+  induction l as [|a l IH]; intro x.
+  - cbn. split; [left; reflexivity|]. intros y [<-|[]]. lra.
+  - rewrite reduce_max_cons. unfold ngtb. cbn [nltb RNum].
+    destruct (Rltb a x) eqn:E.
+    + apply Rltb_true in E. destruct (IH x) as [Hin Hle]. split.
+      * destruct Hin as [<-|Hin]; [left; reflexivity|right; right; exact Hin].
+      * intros y [<-|[<-|Hy]].
+        -- apply Hle. left. reflexivity.
+        -- apply Rle_trans with x; [lra|]. apply Hle. left. reflexivity.
+        -- apply Hle. right. exact Hy.
+    + apply Rltb_false in E. destruct (IH a) as [Hin Hle]. split.
+      * right. exact Hin.
+      * intros y [<-|[<-|Hy]].
+        -- apply Rle_trans with a; [lra|]. apply Hle. left. reflexivity.
+        -- apply Hle. left. reflexivity.
+        -- apply Hle. right. exact Hy.
+Qed.
+
+Lemma reduce_min_R (l : list R) : forall x,
+  In (reduce_min x l) (x :: l) /\ forall y, In y (x :: l) -> reduce_min x l <= y.
+Proof.
+  induction l as [|a l IH]; intro x.
+  - cbn. split; [left; reflexivity|]. intros y [<-|[]]. lra.
+  - rewrite reduce_min_cons. cbn [nltb RNum].
+    destruct (Rltb x a) eqn:E.
+    + apply Rltb_true in E. destruct (IH x) as [Hin Hle]. split.
+      * destruct Hin as [<-|Hin]; [left; reflexivity|right; right; exact Hin].
+      * intros y [<-|[<-|Hy]].
+        -- apply Hle. left. reflexivity.
+        -- apply Rle_trans with x; [|lra]. apply Hle. left. reflexivity.
+        -- apply Hle. right. exact Hy.
+    + apply Rltb_false in E. destruct (IH a) as [Hin Hle]. split.
+      * right. exact Hin.
+      * intros y [<-|[<-|Hy]].
+        -- apply Rle_trans with a; [|lra]. apply Hle. left. reflexivity.
+        -- apply Hle. left. reflexivity.
+        -- apply Hle. right. exact Hy.
+Qed.
+
+(* the scaling component of a non-empty column: an entry; the maximum if it is
+   positive, otherwise (no positive entry) the minimum *)
+Lemma scale_of_R n (y : arr R) : (1 <= n)%nat -> shaped n 1 y ->
+  let s := scale_of y in
+  (exists i, (i < n)%nat /\ s = aget y i 0) /\
+  ((0 < s /\ forall i, (i < n)%nat -> aget y i 0 <= s) \/
+   (s <= 0 /\ forall i, (i < n)%nat -> s <= aget y i 0 <= 0)).
+Proof.
+  intros Hn Hy. cbv zeta.
+  destruct (amax_ok n y Hn Hy) as [x [l [E _]]].
+  assert (Hin : forall i, (i < n)%nat -> In (aget y i 0) (x :: l)).
+  { intros i Hi. rewrite <- E. apply (aget_in n 1%nat); [exact Hy|exact Hi|lia]. }
+  unfold scale_of. rewrite E. unfold ngtb. cbn [nltb n0 RNum].
+  destruct (reduce_max_R l x) as [Hmi Hml]. destruct (reduce_min_R l x) as [Hni Hnl].
+  destruct (Rltb 0 (reduce_max x l)) eqn:Epos.
+  - apply Rltb_true in Epos. split.
+    + apply (in_aget_col n); [exact Hy|rewrite E; exact Hmi].
+    + left. split; [exact Epos|]. intros i Hi. apply Hml. apply Hin. exact Hi.
+  - apply Rltb_false in Epos. split.
+    + apply (in_aget_col n); [exact Hy|rewrite E; exact Hni].
+    + right. split.
+      * apply Rle_trans with (reduce_max x l); [|exact Epos]. apply Hnl. exact Hmi.
+      * intros i Hi. split; [apply Hnl; apply Hin; exact Hi|].
+        apply Rle_trans with (reduce_max x l); [|exact Epos]. apply Hml. apply Hin. exact Hi.
+Qed.
+
+(* one normalisation step over the reals *)
+Lemma step_vec_R n (A x : arr R) : (1 <= n)%nat -> ah A = n -> aw A = n -> shaped n 1 x ->
+  let w := amul A x in
+  let v := step_vec A x in
+  let s := scale_of w in
+  shaped n 1 w /\ shaped n 1 v /\ scaling_component w = Ok s /\
+  (forall i, (i < n)%nat -> aget w i 0 = rsum n (fun t => aget A i t * aget x t 0)) /\
+  (exists i, (i < n)%nat /\ s = aget w i 0) /\
+  ((0 < s /\ forall i, (i < n)%nat -> aget w i 0 <= s) \/
+   (s <= 0 /\ forall i, (i < n)%nat -> s <= aget w i 0 <= 0)) /\
+  (forall i, (i < n)%nat -> aget v i 0 = aget w i 0 / s) /\
+  (forall i, (i < n)%nat -> aget v i 0 <= 1) /\
+  ((exists i, (i < n)%nat /\ aget w i 0 <> 0) -> exists i, (i < n)%nat /\ aget v i 0 = 1).
+Proof.
+  intros Hn HA1 HA2 Hx. cbv zeta.
+  destruct (amul_mat_vec n A x Hn HA1 HA2 Hx) as [Hw Hwv].
+  set (w := amul A x) in *.
+  destruct (scale_of_R n w Hn Hw) as [Hsi Hsc]. cbv zeta in Hsi, Hsc.
+  set (s := scale_of w) in *.
+  assert (Hv : shaped n 1 (step_vec A x)).
+  { unfold step_vec. fold w. destruct Hw as [H1 [H2 _]]. apply adivs_shaped; assumption. }
+  assert (Hval : forall i, (i < n)%nat -> aget (step_vec A x) i 0 = aget w i 0 / s).
+  { intros i Hi. unfold step_vec. fold w. fold s. unfold adivs.
+    destruct Hw as [H1 [H2 _]]. rewrite aget_tabulate by lia. reflexivity. }
+  split; [exact Hw|]. split; [exact Hv|].
+  split; [apply (scaling_component_ok n); assumption|].
+  split; [intros i Hi; rewrite (Hwv i Hi); apply mv_entry_R; assumption|].
+  split; [exact Hsi|]. split; [exact Hsc|]. split; [exact Hval|]. split.
+  - intros i Hi. rewrite (Hval i Hi).
+    destruct Hsc as [[Hpos Hle]|[Hneg Hbd]].
+    + specialize (Hle i Hi). apply Rmult_le_reg_r with s; [exact Hpos|].
+      unfold Rdiv. rewrite Rmult_assoc, Rinv_l by lra. lra.
+    + destruct (Req_dec s 0) as [Hz|Hnz].
+      * rewrite Hz. unfold Rdiv. rewrite Rinv_0. lra.
+      * specialize (Hbd i Hi). assert (Hs : s < 0) by lra.
+        assert (Hq : aget w i 0 = aget w i 0 / s * s) by (field; exact Hnz).
+        set (q := aget w i 0 / s) in *. nra.
+  - intros [i [Hi Hne]].
+    assert (Hs : s <> 0).
+    { intro Hz. destruct Hsc as [[Hpos _]|[_ Hbd]]; [lra|].
+      specialize (Hbd i Hi). lra. }
+    destruct Hsi as [i0 [Hi0 Es]]. exists i0. split; [exact Hi0|].
+    rewrite (Hval i0 Hi0), <- Es. field. exact Hs.
+Qed.
+
+Lemma aget_of_rows n (rows : list (list R)) i j : rect n n rows -> (j < n)%nat ->
+  aget (mk_arr n n (concat rows)) i j = nth j (nth i rows []) 0.
+Proof.
+  intros [_ Hr] Hj. unfold aget. cbn [aw ad n0 RNum]. apply nth_concat_uniform; assumption.
+Qed.
+
+(* ---- C13, R instance -------------------------------------------------------- *)
+Lemma c13_shape_norm_R : forall (rows : list (list R)) (es lam : R) (v : arr R),
+  power_method rows es = Ok (lam, v) ->
+  exists (n : nat) (A x : arr R) (prev ea : R),
+    (1 <= n)%nat /\ rect n n rows /\ try_from rows = Ok A /\ ah A = n /\ aw A = n /\
+    (forall i j, (i < n)%nat -> (j < n)%nat -> aget A i j = nth j (nth i rows []) 0) /\
+    shaped n 1 x /\ pm_step A prev x = Ok (lam, v, ea) /\
+    let w := amul A x in
+    shaped n 1 w /\ shaped n 1 v /\
+    (forall i, (i < n)%nat -> aget w i 0 = rsum n (fun t => aget A i t * aget x t 0)) /\
+    (exists s, scaling_component w = Ok s /\
+       (exists i, (i < n)%nat /\ s = aget w i 0) /\
+       ((0 < s /\ forall i, (i < n)%nat -> aget w i 0 <= s) \/
+        (s <= 0 /\ forall i, (i < n)%nat -> s <= aget w i 0 <= 0)) /\
+       forall i, (i < n)%nat -> aget v i 0 = aget w i 0 / s) /\
+    (forall i, (i < n)%nat -> aget v i 0 <= 1) /\
+    ((exists i, (i < n)%nat /\ aget w i 0 <> 0) -> exists i, (i < n)%nat /\ aget v i 0 = 1) /\
+    lam = rayleigh n A v.
+Proof.
+  intros rows es lam v H.
+  destruct (pm_ok_trace rows es lam v H) as [n [A [k [prev [xp [ea [Hn [Hr [EA [Htf [_ [_ [Hxp [Hstep _]]]]]]]]]]]]]].
+  assert (HA1 : ah A = n) by (rewrite EA; reflexivity).
+  assert (HA2 : aw A = n) by (rewrite EA; reflexivity).
+  destruct (pm_step_eq n A prev xp Hn HA1 HA2 Hxp) as [E _]. cbv zeta in E.
+  pose proof Hstep as Hstep'. rewrite E in Hstep'. injection Hstep' as El Ev _.
+  destruct (step_vec_R n A xp Hn HA1 HA2 Hxp) as [Hw [Hv [Hsc [Hwv [Hsi [Hcase [Hval [Hle1 Hone]]]]]]]].
+  cbv zeta in *. rewrite Ev in *.
+  exists n, A, xp, prev, ea.
+  split; [exact Hn|]. split; [exact Hr|]. split; [exact Htf|]. split; [exact HA1|]. split; [exact HA2|].
+  split; [intros i j Hi Hj; rewrite EA; apply aget_of_rows; assumption|].
+  split; [exact Hxp|]. split; [exact Hstep|].
+  split; [exact Hw|]. split; [exact Hv|]. split; [exact Hwv|].
+  split; [exists (scale_of (amul A xp)); repeat split; assumption|].
+  split; [exact Hle1|]. split; [exact Hone|].
+  rewrite <- El. apply rayleigh_of_R; assumption.
+Qed.
+
+Lemma c13_exit_R : forall (rows : list (list R)) (es lam : R) (v : arr R),
+  power_method rows es = Ok (lam, v) ->
+  exists (A : arr R) (k : nat) (prev : R) (x : arr R) (ea : R),
+    try_from rows = Ok A /\ (N.of_nat k < MAX_ITERATIONS)%N /\
+    (exists s0 x0, pm_state A 0 = Ok (s0, x0) /\
+                   scaling_component (amul A (afull 1 (ah A) 1)) = Ok s0) /\
+    pm_state A k = Ok (prev, x) /\
+    pm_step A prev x = Ok (lam, v, ea) /\
+    ea = Rabs ((lam - prev) / lam) /\ ea < es /\
+    (lam <> 0 -> Rabs (lam - prev) < es * Rabs lam).
+Proof.
+  intros rows es lam v H.
+  destruct (pm_ok_trace rows es lam v H) as [n [A [k [prev [xp [ea [Hn [Hr [EA [Htf [Hk [Hst [Hxp [Hstep Hlt]]]]]]]]]]]]]].
+  assert (HA1 : ah A = n) by (rewrite EA; reflexivity).
+  assert (HA2 : aw A = n) by (rewrite EA; reflexivity).
+  destruct (pm_step_eq n A prev xp Hn HA1 HA2 Hxp) as [E _]. cbv zeta in E.
+  pose proof Hstep as Hstep'. rewrite E in Hstep'. injection Hstep' as El _ Eea.
+  rewrite El in Eea. cbn [nabs ndiv nsub RNum] in Eea.
+  cbn [nltb RNum] in Hlt. apply Rltb_true in Hlt.
+  exists A, k, prev, xp, ea.
+  split; [exact Htf|]. split; [exact Hk|]. split.
+  { destruct (pm_init_eq n A Hn HA1 HA2) as [Ei _]. cbv zeta in Ei.
+    eexists _, _. split; [exact Ei|]. rewrite HA1.
+    apply (scaling_component_ok n); [exact Hn|].
+    apply (amul_mat_vec n A _ Hn HA1 HA2 (afull_shaped _ n 1%nat)). }
+  split; [exact Hst|]. split; [exact Hstep|]. split; [symmetry; exact Eea|]. split; [exact Hlt|].
+  intro Hnz. rewrite <- Eea in Hlt. unfold Rdiv in Hlt. rewrite Rabs_mult, Rabs_inv in Hlt.
+  assert (Hpos : 0 < Rabs lam) by (apply Rabs_pos_lt; exact Hnz).
+  apply Rmult_lt_reg_r with (/ Rabs lam); [apply Rinv_0_lt_compat; exact Hpos|].
+  rewrite Rmult_assoc, Rinv_r by lra. lra.
+Qed.
